@@ -39,10 +39,8 @@ Proof.
   rewrite Ht, B in A'. discriminate.
 Qed.
 
-(* with the repair: at EVERY cut position of the example history (all 29 prefixes of its 28 writes) the resumed node ends
-   with the same best block and the same tallies; the finalized block is the same too, except at the one cut between the
-   quality record and the finalized record of the LAST committed epoch, where it still is the previous checkpoint (the
-   property tolerates that lag until one further epoch has committed) *)
+(* with the repair: at EVERY cut position of the example history (all 26 prefixes of its 25 writes) the resumed node ends
+   with the same best block, the same tallies and the same finalized block *)
 Definition same_outcome (c : cfg) (with_fin : bool) (a b : store) : bool :=
   match get_id a KBest, get_id b KBest with
   | Some x, Some y => (x =? y) && (negb with_fin || (finalized c a =? finalized c b))
@@ -57,20 +55,19 @@ Definition import_of_cut (c : cfg) (s : store) (l : list blk) (k : nat) : nat :=
 Lemma resume_converges_on_example :
   forallb (fun k =>
     match resume ex_cfg true (crash ex_cfg ex_s0 ex_hist k) (skipn (import_of_cut ex_cfg ex_s0 ex_hist k) ex_hist) with
-    | Some s' => same_outcome ex_cfg (negb (Nat.eqb k 27)) s' (run ex_cfg ex_s0 ex_hist)
+    | Some s' => same_outcome ex_cfg true s' (run ex_cfg ex_s0 ex_hist)
     | None => false
     end) (seq 0 (S (length (writes_of ex_cfg ex_s0 ex_hist)))) = true /\
-  length (writes_of ex_cfg ex_s0 ex_hist) = 28%nat /\
-  option_map (finalized ex_cfg) (resume ex_cfg true (crash ex_cfg ex_s0 ex_hist 27) []) = Some (bid 2 2).
+  length (writes_of ex_cfg ex_s0 ex_hist) = 25%nat.
 Proof. vm_compute. auto. Qed.
 
-(* the same sweep without the repair fails exactly at cuts 10 (block 3) and 18 (block 5): block bulk written, quality not yet *)
+(* the same sweep without the repair fails exactly at the cuts right after the block bulk of a store-point block (blocks 1, 3, 5, 7) *)
 Lemma resume_diverges_exactly_at_f6_cuts :
   filter (fun k =>
     negb match resume ex_cfg false (crash ex_cfg ex_s0 ex_hist k) (skipn (import_of_cut ex_cfg ex_s0 ex_hist k) ex_hist) with
          | Some s' => same_outcome ex_cfg false s' (run ex_cfg ex_s0 ex_hist)
          | None => false
-         end) (seq 0 (S (length (writes_of ex_cfg ex_s0 ex_hist)))) = [3; 10; 18; 26]%nat.
+         end) (seq 0 (S (length (writes_of ex_cfg ex_s0 ex_hist)))) = [3; 10; 17; 24]%nat.
 Proof. vm_compute. reflexivity. Qed.
 
 (* the example meets the hypotheses of the general resume theorem *)
